@@ -138,6 +138,15 @@ async def drive(spec: dict[str, Any], run: Run) -> None:
                 await cmd(b'SUBSCRIBE ' + w, 'subscribe')
             await cmd(b'STATUS ' + w + b' (MESSAGES RECENT UIDNEXT '
                       b'UIDVALIDITY UNSEEN)', 'status')
+        if rng.random() < 0.4:
+            # octets that may not be in a quoted string, sent in one: the
+            # server takes them; it must not hand them back like that
+            raw = rng.choice([b'caf\xe9', b'nul\x00box', b'\xff\xfe',
+                              b'a\x80b', b'x\x7fy', b'caf\xc3\xa9'])
+            await cmd(b'CREATE "' + raw + b'"', 'create-raw')
+            await cmd(b'SUBSCRIBE "' + raw + b'"', 'subscribe-raw')
+            await cmd(b'STATUS "' + raw + b'" (MESSAGES UIDNEXT)',
+                      'status-raw')
         await cmd(b'LIST "" *', 'list')
         await cmd(b'LSUB "" *', 'lsub')
         await cmd(b'LIST "" %', 'list')
@@ -176,6 +185,14 @@ async def drive(spec: dict[str, Any], run: Run) -> None:
                 KEYWORDS, 2)) + b' \\Seen)', 'store')
             await cmd(b'UID SEARCH ALL', 'search')
             await cmd(b'SEARCH SUBJECT x', 'search')
+            # RFC 4731 spellings: whatever the server makes of them, what
+            # it answers must be a response
+            await cmd(rng.choice([b'SEARCH RETURN (COUNT) ALL',
+                                  b'UID SEARCH RETURN (MIN MAX) ALL',
+                                  b'SEARCH RETURN (ALL) 1:*',
+                                  b'SEARCH RETURN () ALL',
+                                  b'UID SEARCH RETURN (COUNT MIN) SEEN',
+                                  b'SEARCH CHARSET UTF-8 ALL']), 'search-ret')
             await cmd(b'UID FETCH 1:* (FLAGS)', 'fetch-flags')
             if rng.random() < 0.3:
                 await cmd(b'COPY 1:* ' + gen.wire_mailbox(names[0]), 'copy')
